@@ -176,10 +176,28 @@ func (fr *Frame) instr(in ssa.Instruction, st *State, reach string) (stop bool, 
 	case *ssa.Defer:
 		callee := calleeName(x.Common())
 		if !g.effectFree(callee) {
-			g.note("%s: defer %s is not modelled (effects at function exit ignored)", fr.fn, callee)
-			fr.deferred = append(fr.deferred, callee)
+			if fr.fc != nil && fr.fc.Opts["model-defers"] != "" && fr.depth == 0 {
+				// opt model-defers: the deferred call is executed at RunDefers, under the condition that this defer
+				// statement was reached on the path (LIFO); defers inside loops are not supported (heap havocked at exit)
+				fr.defers = append(fr.defers, deferRec{in: x, cond: reach, inLoop: fr.inLoop(x.Block())})
+			} else {
+				g.note("%s: defer %s is not modelled (effects at function exit ignored)", fr.fn, callee)
+				fr.deferred = append(fr.deferred, callee)
+			}
 		}
 	case *ssa.RunDefers:
+		for i := len(fr.defers) - 1; i >= 0; i-- {
+			d := fr.defers[i]
+			if d.inLoop {
+				g.note("%s: defer inside a loop: heap havocked at function exit", fr.fn)
+				g.havocAll(st)
+				continue
+			}
+			work := st.clone()
+			fr.call(d.in, d.in.Common(), work, g.define("defer.run", SBool, sAnd(reach, d.cond)))
+			merged := fr.mergeStates([]string{d.cond, sNot(d.cond)}, []*State{work, st.clone()})
+			st.h, st.epoch, st.preds, st.conds = merged.h, merged.epoch, merged.preds, merged.conds
+		}
 	case *ssa.Return:
 		var rs []Val
 		for _, r := range x.Results {
